@@ -144,6 +144,24 @@ impl Mach {
         }
     }
 
+    /// Set-up write in the *middle* of a sequence (code loaded at a new PC after a jump or a refused step):
+    /// plain memory goes through `Bus::write`, the path an external writer (a host `u8:` message) takes while a
+    /// program runs, so that an implementation that keeps a word read ahead sees the store.
+    pub fn poke_mid_sequence(&mut self, a: u32, v: u8) {
+        if !sem::mapped(a) {
+            return;
+        }
+        self.pre_check(a);
+        let plain = matches!(a, VEC_LO..=VEC_HI | DRAM_LO..=DRAM_HI | RAM_LO..=RAM_HI);
+        if plain {
+            let _ = self.cpu.bus.write(a, v);
+        } else {
+            self.store_real(a, v);
+        }
+        *self.shadow_slot(a).unwrap() = v;
+        self.dirty.push(a);
+    }
+
     #[inline]
     pub fn shadow_slot(&mut self, a: u32) -> Option<&mut u8> {
         let s = &mut self.sh;
